@@ -335,3 +335,37 @@ def admissible(tr, pt, taus=(0, 1)):
     except (ValueError, OverflowError, ZeroDivisionError):
         return False
     return True
+
+
+# ---------------------------------------------------------------------------
+# oracle (d): evaluation sequences on one stacked-time evaluator, and the space of simulation plans
+# ---------------------------------------------------------------------------
+SEQ_T = 3               # periods of the simulated frame
+FAR = 3.0               # the "far" point multiplies the unknowns of x, y, z, w by this
+# The points at which one and the same evaluator is asked for its Jacobian, as modifications of the data G:
+#   Z  every unknown of a non-log variable among x, y, z, w exactly 0.0 (products, quotients, powers and the user
+#      function g then have derivatives that are exactly zero, also w.r.t. the terminal values);
+#   G  the data (generic);
+#   F  FAR x G (other branches of maximum/minimum, also for the terminal values, which scale with the last periods).
+# Orders: exact zeros at the first evaluation, then generic points; and generic first, zeros in the middle, generic again.
+SEQUENCES = (("Z", "G", "F"), ("G", "Z", "F"))
+PLAN_KINDS = ("anticipated", "unanticipated")
+
+
+def seq_point_value(label, base_value, is_log):
+    """value of an unknown of x, y, z, w at the point `label`, given its value in the data"""
+    if label == "G":
+        return base_value
+    if label == "Z":
+        return base_value if is_log else 0.0
+    if label == "F":
+        return FAR * base_value
+    raise KeyError(label)
+
+
+def plan_cases(T=SEQ_T):
+    """the complete space of plans of oracle (d): kind x exogenized variable x exogenized date; the shock of the
+    variable's own closing equation is endogenized at the same date.  An unanticipated point other than in the first
+    period starts a new frame (a different simulation problem), so that kind is enumerated for date 1 only."""
+    return [(kind, n, d) for kind in PLAN_KINDS for n in VARNAMES for d in range(1, T + 1)
+            if kind == "anticipated" or d == 1]
